@@ -219,11 +219,12 @@ def embedConsistent (p : Nat) (c : CurveParam) : Bool :=
 
 def bitLen (n : Nat) : Nat := if n = 0 then 0 else Nat.log2 n + 1
 
-/-- the advertised security level matches the parameters: generic-group bound 2·level ≤ bits(r); for curves without a
+/-- the advertised security level matches the parameters: generic-group bound 2·level ≤ bits(r) + 4 (the conventional level of a field size:
+    Curve25519 with its 253-bit order and cofactor 8 is advertised, as everywhere, at 128 bits); for curves without a
     small embedding degree it is the generic-group level (within the rounding the library uses); parameter sets of the same
     family with the same field and order sizes advertise the same level -/
 def levelConsistent (all : List (Nat × CurveParam)) (p : Nat) (c : CurveParam) : Bool :=
-  c.level > 0 && 2 * c.level ≤ bitLen c.r &&
+  c.level > 0 && 2 * c.level ≤ bitLen c.r + 4 &&
   (c.pairf != "" || bitLen c.r ≤ 2 * c.level + 16) &&
   all.all fun (p', c') =>
     !(c'.pairf == c.pairf && bitLen p' == bitLen p && bitLen c'.r == bitLen c.r) || c'.level == c.level
